@@ -1123,8 +1123,13 @@ def FLT(s):
 def F2I(x):
     if isinstance(x, SInt):
         return x
+    if isinstance(x, SReal):
+        k = CTX.fresh("trunc")                       # C conversion: truncation toward zero
+        kr = z3.ToReal(k)
+        CTX.assume(z3.Or(z3.And(x.e >= 0, kr <= x.e, x.e < kr + 1), z3.And(x.e < 0, kr - 1 < x.e, x.e <= kr)))
+        return SInt(k)
     if is_sym(x):
-        raise Unsupported("symbolic float to int (only integer-valued results of floor / round are converted)")
+        raise Unsupported("symbolic value converted to int")
     return int(x)
 
 
